@@ -178,7 +178,22 @@ func runCheck(prop, tier, repo, verif string, verbose, noReplay bool, evOut stri
 	if failing > 0 {
 		// functions that keep a redundant check on both sides of a call carry an alternative
 		// contract (name@B); the property holds if everything verifies under one consistent choice
-		alts := P.alternatives()
+		// only alternatives of functions involved in a failure (the function itself or a caller of it)
+		var alts []string
+		for _, a := range P.alternatives() {
+			involved := false
+			for _, o := range obls {
+				if o.Canary || o.Result == "unsat" {
+					continue
+				}
+				if vc := vcOf[o]; vc != nil && (vc.spec.Name == a || vc.spec.Name == a+"@B" || vc.usedSpecs[a] || vc.usedSpecs[a+"@B"]) {
+					involved = true
+				}
+			}
+			if involved {
+				alts = append(alts, a)
+			}
+		}
 		tried := false
 		for mask := 1; mask < (1<<len(alts)) && len(alts) <= 4; mask++ {
 			P.variant = map[string]string{}
